@@ -38,6 +38,17 @@ theorem fresh_outputs_keypair (D : Derivers) (s₁ s₂ : Bytes) (h₁ : 32 ≤ 
 /-- every name of the line protocol has a data-flow entry (the table is total on what the runner offers) -/
 example : (table.lookup "pwhash_str") = some .saltText := by decide
 
+/-- the table the runner dispatches on is a function: no entry-point name occurs twice, so
+`table.lookup` finds *the* data flow of every name the line protocol offers -/
+theorem table_total : (table.map Prod.fst).Nodup := by decide
+
+/-- … and every name of the table does have its entry -/
+theorem table_lookup_mem : ∀ e ∈ table, table.lookup e.1 = some e.2 := by decide
+
+/-- every entry point of the table draws at least one byte: there is no operation in the table that
+could return a constant -/
+theorem consumed_pos : ∀ k ∈ table.map Prod.snd, 0 < k.consumed := by decide
+
 /-- non-vacuity -/
 example : (raw 2 [1, 2, 3]).comp = [1, 2] ∧ (raw 2 [1, 2, 3]).rest = [3] := by decide
 
